@@ -44,6 +44,43 @@ INFO = {
               "That exposed the same mistake in C19's own reference depth (visited fragments carried down into sub-selections), "
               "which was corrected: a false alarm of the machinery, not of py-gql"),
     "C20-a": (["C20"], "missed at first", "default edits never produced an explicit `= null`; _default_edit now does for nullable types"),
+    # ---- round 2 (each agent was told what the round-1 change for its property was and asked for a different one)
+    "C01-b": (["C01"], "caught as written", None),
+    "C02-b": (["C02"], "caught as written", None),
+    "C03-b": (["C03"], "caught as written", None),
+    "C04-b": (["C04"], "caught as written", None),
+    "C05-b": (["C05", "C06"], "caught as written", None),
+    "C06-b": (["C06"], "missed at first",
+              "multi-operation documents only had a trivial second operation; the second operation is now generated in full with "
+              "its own variables (same names, usually other types) and fragments"),
+    "C07-b": (["C07"], "caught as written", None),
+    "C08-b": (["C08", "C09"], "missed at first",
+              "every field had an explicitly registered resolver; a quarter of the non-root fields are now left to py_gql's default "
+              "resolver: the parent value is an object whose method defers the field through info.runtime.submit"),
+    "C09-b": (["C09"], "caught as written", None),
+    "C10-b": (["C10"], "caught as written", None),
+    "C11-b": (["C11", "C14"], "missed at first",
+              "C11 built fresh additional_types objects for every build; the same objects are now handed to every build of a case "
+              "(plus one repeated build) and checked afterwards (C14 caught the extend_schema side of it as written)"),
+    "C12-b": (["C12"], "missed at first",
+              "deprecation reasons were ASCII only; the pool now has astral characters, quotes, backslashes, newlines and the "
+              "empty reason. That exposed a genuine defect (empty reasons, /repo e888b36) and a mistake of the generator's own SDL "
+              "rendering (json.dumps with ensure_ascii), corrected"),
+    "C13-b": (["C13"], "missed at first",
+              "the `interface-argument-retyped` injection always used Int vs String; it now also draws pairs differing only in "
+              "nullability / list depth"),
+    "C14-b": (["C14"], "caught as written", None),
+    "C15-b": (["C15"], "missed at first", "no member was deprecated with an empty reason (see C12-b); genuine defect e888b36 found on the way"),
+    "C16-b": (["C16"], "caught as written", None),
+    "C17-b": (["C17"], "missed at first",
+              "no event was ever aborted by an unexpected exception; C17 now injects one at a field of a drawn event, the consumer "
+              "keeps listening, and later results must be unaffected"),
+    "C18-b": (["C18"], "caught as written", None),
+    "C19-b": (["C19"], "missed at first",
+              "every check used a fresh rule instance; C19 now re-uses one rule instance and parsed document for 1-2 further variable "
+              "assignments"),
+    "C20-b": (["C20"], "missed at first",
+              "no diff contained the same textual type change at an input and an output position; edit `mirror-nullability` added"),
 }
 for sid, (caught, first, strengthening) in sorted(INFO.items()):
     p = os.path.join(HERE, "seeded", sid, "meta.json")
